@@ -547,6 +547,7 @@ type jobResult struct {
 	Def     map[string]interface{}            `json:"def"`
 	Exports map[string]map[string]interface{} `json:"exports"`
 	Probes  map[string]interface{}            `json:"probes"`
+	Sites   map[string]string                 `json:"sites"`
 	Error   string                            `json:"error"`
 }
 
@@ -958,11 +959,13 @@ type genSpec struct {
 	num   int // walks per process
 }
 
+var genMu sync.Mutex
+
 func generate(r *core.Run, gs genSpec, seedBase int64, sink func(raw []byte)) {
-	var mu sync.Mutex
+	mu := &genMu
 	core.Parallel(gs.seeds, 4, func(i int) {
 		res, err := tlcrun.Run(r, tlcrun.Options{Module: "Rename", Config: gs.cfg, Workers: 1, TimeoutSec: 1500,
-			Simulate: fmt.Sprintf("num=%d", gs.num), Depth: 40, Seed: seedBase*100 + int64(i) + 1, NoDeadlock: true,
+			Simulate: fmt.Sprintf("num=%d", gs.num), Depth: 40, Seed: seedBase*10 + int64(i) + 1, NoDeadlock: true,
 			OnCase: func(raw []byte) {
 				cp := append([]byte{}, raw...)
 				mu.Lock()
@@ -976,7 +979,6 @@ func generate(r *core.Run, gs genSpec, seedBase int64, sink func(raw []byte)) {
 		if res.Violated != "" {
 			r.Infra("generator %s: TLC reports %s on the model alone:\n%s", gs.cfg, res.Violated, res.Output)
 		}
-		r.Logf("TLC %s seed %d: %d states, %d trees, %.1fs", gs.cfg, seedBase*100+int64(i)+1, res.Generated, res.Cases, res.Wall.Seconds())
 	})
 }
 
@@ -1053,61 +1055,84 @@ func Run(r *core.Run) {
 	if r.Thorough() {
 		designs = append(designs, "Rename.design-module2.cfg", "Rename.design-script2.cfg")
 	}
+	only := os.Getenv("VERIF_C15_ONLY") // developer knob: "trees" | "props"
+	if only != "" {
+		designs = nil
+	}
 	var wg sync.WaitGroup
 	wg.Add(1)
 	go func() {
 		defer wg.Done()
 		core.Parallel(len(designs), 2, func(i int) {
-			tlcrun.MustHold(r, tlcrun.Options{Module: "Rename", Config: designs[i], Workers: 2, TimeoutSec: 1400, NoDeadlock: true})
+			tlcrun.MustHold(r, tlcrun.Options{Module: "Rename", Config: designs[i], Workers: 4, TimeoutSec: 1400, NoDeadlock: true})
 		})
 	}()
-	// (2) trees generated by TLC, replayed through the real esbuild
+	// (3) mangled properties (scenarios enumerated by TLC, records validated by TLC)
+	wg.Add(1)
+	go func() {
+		defer wg.Done()
+		if only != "trees" {
+			runProps(r)
+		}
+	}()
+	// (2) trees generated by TLC (seeded random walks, in rounds until the time
+	// budget of the tier is used: the machine is shared and TLC's speed varies),
+	// replayed through the real esbuild
 	st := &stats{byCoinc: map[string]int{}, byConfig: map[string]int{}}
 	seen := map[string]bool{}
-	var units []*unit
-	sink := func(raw []byte) {
-		h := core.Hash(json.RawMessage(raw))
-		if seen[h] {
-			return
-		}
-		seen[h] = true
-		var c caseT
-		if err := json.Unmarshal(raw, &c); err != nil {
-			r.Infra("undecodable CASE record: %v", err)
-			return
-		}
-		units = append(units, &unit{idx: len(units), raw: raw, c: &c, hash: h})
-	}
-	walks := r.Pick(900, 30000)
-	if v := os.Getenv("VERIF_C15_WALKS"); v != "" { // developer knob
+	total := 0
+	walks := r.Pick(400, 2500)
+	procs := r.Pick(2, 4)
+	budget := time.Duration(r.Pick(70, 780)) * time.Second
+	maxRounds := r.Pick(6, 40)
+	if v := os.Getenv("VERIF_C15_WALKS"); v != "" { // developer knobs
 		fmt.Sscan(v, &walks)
 	}
-	gens := []genSpec{
-		{"Rename.gen-module.cfg", r.Pick(2, 8), walks},
-		{"Rename.gen-script.cfg", r.Pick(2, 8), walks},
+	if v := os.Getenv("VERIF_C15_ROUNDS"); v != "" {
+		fmt.Sscan(v, &maxRounds)
 	}
-	core.Parallel(len(gens), 2, func(i int) { generate(r, gens[i], r.Seed, sink) })
-	r.Logf("%d distinct trees generated", len(units))
 	nconf := r.Pick(3, 8)
-	for _, u := range units {
-		all := allConfigs(u.c, render(u.c, false))
-		u.configs = pickConfigs(all, nconf, u.idx+int(r.Seed))
+	if only == "props" {
+		maxRounds = 0
 	}
-	const chunk = 1500
-	for i := 0; i < len(units); i += chunk {
-		j := i + chunk
-		if j > len(units) {
-			j = len(units)
+	for round := 0; round < maxRounds; round++ {
+		t0 := time.Now()
+		var units []*unit
+		sink := func(raw []byte) {
+			h := core.Hash(json.RawMessage(raw))
+			if seen[h] {
+				return
+			}
+			seen[h] = true
+			var c caseT
+			if err := json.Unmarshal(raw, &c); err != nil {
+				r.Infra("undecodable CASE record: %v", err)
+				return
+			}
+			units = append(units, &unit{idx: total + len(units), raw: raw, c: &c, hash: h})
 		}
-		process(r, units[i:j], st)
-		for _, u := range units[i:j] { // free memory
-			u.progs, u.outs = nil, nil
+		// rounds grow: the first one is small so that a loaded machine still finishes in time
+		w := walks * (round + 1) / 2
+		if w > walks*2 {
+			w = walks * 2
 		}
-		r.Logf("replayed %d/%d trees (%d configurations, %d executions, %d violations so far)", j, len(units), st.configsRun, st.executions, r.Violations())
+		gens := []genSpec{{"Rename.gen-module.cfg", procs, w}, {"Rename.gen-script.cfg", procs, w}}
+		core.Parallel(len(gens), 2, func(i int) { generate(r, gens[i], r.Seed*100+int64(round), sink) })
+		sort.Slice(units, func(i, j int) bool { return units[i].hash < units[j].hash }) // arrival order of the TLC processes does not matter
+		for i, u := range units {
+			u.idx = total + i
+			all := allConfigs(u.c, render(u.c, false))
+			u.configs = pickConfigs(all, nconf, u.idx+int(r.Seed))
+		}
+		total += len(units)
+		process(r, units, st)
+		r.Logf("round %d: %d new trees (%d so far, %d configurations, %d executions, %d violations, %d drift), %.0fs", round+1, len(units), total,
+			st.configsRun, st.executions, r.Violations(), st.drift, time.Since(t0).Seconds())
+		if r.Elapsed()+time.Since(t0)*8/10 > budget {
+			break
+		}
 	}
 	wg.Wait()
-	// (3) mangled properties
-	runProps(r)
 	r.AddTraces(int64(st.executions))
 	r.Set("trees", st.cases)
 	r.Set("configurations_run", st.configsRun)
